@@ -43,16 +43,16 @@ func C19(r *core.Report) {
 	c19IncludeAppliedOnEveryPath(r)
 	c19ResponsesFilledAlike(r)
 	c19FailedFilterSeesTheSameMeta(r)
-	r.Floor("C19.R15", 2)
+	r.Floor("C19.R15", 1)
 	r.Floor("C19.R13", 1)
 	r.Floor("C19.R12", 1)
 	slotWalkStopsOnlyBelowRange(r, "C19.R10")
 	r.Floor("C19.R10", 1)
 	r.Floor("C19.R9", 1)
 	r.Floor("C19.R1", 6)
-	r.Floor("C19.R2", 2)
-	r.Floor("C19.R3", 6)
-	r.Floor("C19.R4", 2)
+	r.Floor("C19.R2", 1)
+	r.Floor("C19.R3", 3)
+	r.Floor("C19.R4", 1)
 	r.Floor("C19.R6", 1)
 }
 
